@@ -266,10 +266,14 @@ def expand_brefs(n, g):
     if k == "cap":
         if n[1] - 1 >= len(g):
             return ("grp", expand_brefs(n[2], g))  # a group the template did not expect: left unconstrained
+        if g[n[1] - 1] is None:
+            return ("cap", n[1], expand_brefs(n[2], g))  # a capture LOCAL to a negative look-ahead: expanded there
         return ("capval", n[1], expand_brefs(n[2], g), g[n[1] - 1])
     if k == "bref":
         if n[1] - 1 >= len(g):
             raise Unsupported("back-reference to undefined group")
+        if g[n[1] - 1] is None:
+            return n
         return ("str", g[n[1] - 1])
     if k in ("lit", "cls", "str", "set"):
         return n
@@ -279,6 +283,47 @@ def expand_brefs(n, g):
         return (k, expand_brefs(n[1], g))
     if k in ("rep", "prep"):
         return (k, expand_brefs(n[1], g), n[2], n[3])
+    raise Unsupported(k)
+
+
+def local_caps(n):
+    """group numbers of the (unexpanded) capture groups inside n"""
+    k = n[0]
+    if k == "cap":
+        return {n[1]} | local_caps(n[2])
+    if k == "capval":
+        return local_caps(n[2])
+    if k in ("lit", "cls", "str", "set", "bref"):
+        return set()
+    if k in ("cat", "alt"):
+        out = set()
+        for x in n[1]:
+            out |= local_caps(x)
+        return out
+    if k in ("grp", "nla", "pla", "rep", "prep", "plb", "nlb", "atomic"):
+        return local_caps(n[1])
+    raise Unsupported(k)
+
+
+def expand_local(n, vals):
+    """vals: {group number: text}; those groups become capval, their back-references literals; others untouched"""
+    k = n[0]
+    if k == "cap":
+        if n[1] in vals:
+            return ("capval", n[1], expand_local(n[2], vals), vals[n[1]])
+        return ("cap", n[1], expand_local(n[2], vals))
+    if k == "capval":
+        return ("capval", n[1], expand_local(n[2], vals), n[3])
+    if k == "bref":
+        return ("str", vals[n[1]]) if n[1] in vals else n
+    if k in ("lit", "cls", "str", "set"):
+        return n
+    if k in ("cat", "alt"):
+        return (k, [expand_local(x, vals) for x in n[1]])
+    if k in ("grp", "nla", "pla", "plb", "nlb", "atomic"):
+        return (k, expand_local(n[1], vals))
+    if k in ("rep", "prep"):
+        return (k, expand_local(n[1], vals), n[2], n[3])
     raise Unsupported(k)
 
 
@@ -446,6 +491,11 @@ class Tr:
             lo, hi = self._bounds(n[2], n[3])
             return loop(self.plain(n[1], cols, grpcols), lo, hi)
         if k == "bref":
+            if getattr(self, "local_dom", None) and n[1] in self.local_dom:
+                # a reference to a group that is only ever set INSIDE a negative look-ahead, met outside that look-ahead (or
+                # in another one): the group has not participated in the match there, the engine fails the reference
+                self.rewrites.add("back-reference to a group that is unset at that point matches nothing")
+                return EMPTY
             raise Unsupported("back-reference (expand first)")
         if k in ("nla", "pla"):
             raise Unsupported("look-ahead in plain context")
@@ -457,6 +507,19 @@ class Tr:
             return z3.Concat(self.plain(n, cols, grpcols), K)
         k = n[0]
         if k == "nla":
+            loc = sorted(local_caps(n[1]))
+            if loc:
+                # capture groups defined INSIDE the negative look-ahead are local to it (the engine forgets them when the
+                # look-ahead is left): "no value of the groups makes the body match" = intersection over the local domain
+                dom = getattr(self, "local_dom", None) or {}
+                if any(i not in dom for i in loc):
+                    raise Unsupported("capture group inside a negative look-ahead without a local capture domain")
+                r = K
+                import itertools as _it
+                for vals in _it.product(*[dom[i] for i in loc]):
+                    body = expand_local(n[1], dict(zip(loc, vals)))
+                    r = inter(r, comp(self.lang(body, self.w.ANY, lacols, lacols, None)))
+                return r
             return inter(K, comp(self.lang(n[1], self.w.ANY, lacols, lacols, None)))
         if k == "pla":
             return inter(K, self.lang(n[1], self.w.ANY, lacols, lacols, None))
